@@ -1,3 +1,4 @@
 CONSTANTS TopicLens = {} TopicClasses = {} PayloadSizes = {} FilterCounts = {} Thorough = FALSE BigSizes = {}
+  ManyCounts = {}
 SPECIFICATION JSpec
 CHECK_DEADLOCK FALSE
